@@ -195,7 +195,8 @@ def main():
             unexplained.append(r)
 
     def payload(r, kind):
-        cid = r[0].split(" ")[2] if r[0].startswith("pyroundtrip") else r[0].split(" ")[3]
+        toks = r[0].split(" ")
+        cid = (toks[2] if r[0].startswith("pyroundtrip") else toks[3]) if len(toks) > 3 else (r[1].split(" ")[1] if len(r[1].split(" ")) > 1 else "")
         info = cases.get(cid, {})
         return {"kind": kind, "stream": "c11-rows", "request": r[0], "impl": r[1], "oracle": r[2],
                 "class": fail_class(r[2]), "format": info.get("format"), "src": info.get("src"),
